@@ -24,7 +24,10 @@ var checks = map[string]func(*Ctx){
 	"C06": checkC06,
 	"C07": checkC07,
 	"C12": checkC12,
+	"C13": checkC13,
+	"C15": checkC15,
 	"C09": checkC09,
+	"C10": checkC10,
 	"C11": checkC11,
 	"C16": checkC16,
 	"C17": checkC17,
